@@ -103,8 +103,14 @@ const SURFACES: &[(&str, &str, Target)] = &[
     ("ldap_use_password_bind", "validate_ldap_session", Target::Person),
     ("ldap_use_uat_bind", "validate_ldap_session", Target::Person),
     ("ldap_use_apit_bind", "validate_ldap_session", Target::Service),
+    ("ldap_use_anonymous_bind", "validate_ldap_session", Target::Anonymous),
     ("bearer_uat", "validate_client_auth_info_to_ident", Target::Person),
     ("bearer_apit", "validate_client_auth_info_to_ident", Target::Service),
+    // a token issued to anonymous while its window was open, presented after the window closed
+    // (anonymous has no session records: its token takes a different path through
+    // `check_user_auth_token_valid` than a person's)
+    ("bearer_anonymous", "validate_client_auth_info_to_ident", Target::Anonymous),
+    ("ldap_bind_anonymous_uat", "token_auth_ldap", Target::Anonymous),
     ("radius_as_server", "get_radiusauthtoken", Target::Person),
     ("radius_as_self", "get_radiusauthtoken", Target::Person),
     ("unix_token_as_anonymous", "get_unixusertoken", Target::Person),
@@ -325,6 +331,13 @@ impl World {
         tok
     }
 
+    /// Login as anonymous with the window open at `t` (anonymous sessions are not recorded).
+    async fn anonymous_session(&mut self, t: i128) -> String {
+        let tok = self.login("anonymous", true, t).await.unwrap_or_else(|e| panic!("preparation anonymous login failed: {e}"));
+        self.apply_delayed(t).await;
+        tok
+    }
+
     async fn service_token(&mut self, t: i128) -> String {
         let ev = GenerateApiTokenEvent { ident: ident_internal(0).unwrap(), target: u_service(), label: format!("t{t}"), expiry: None, read_write: false, compact: false };
         let mut pw = self.idms.proxy_write(dur(t)).await.unwrap();
@@ -529,8 +542,12 @@ impl World {
                     Err(e) => refused(e),
                 }
             }
-            "ldap_bind_uat" | "ldap_bind_apit" => {
-                let tok = if s == "ldap_bind_uat" { self.person_session(t_prep).await } else { self.service_token(t_prep).await };
+            "ldap_bind_uat" | "ldap_bind_apit" | "ldap_bind_anonymous_uat" => {
+                let tok = match s {
+                    "ldap_bind_uat" => self.person_session(t_prep).await,
+                    "ldap_bind_anonymous_uat" => self.anonymous_session(t_prep).await,
+                    _ => self.service_token(t_prep).await,
+                };
                 self.set_window(tu, vf, ex, t_set).await;
                 match self.ldap_bind("token", &tok, ct).await {
                     Ok(Some(_)) => ok("bound"),
@@ -538,9 +555,10 @@ impl World {
                     Err(e) => refused(e),
                 }
             }
-            "ldap_use_password_bind" | "ldap_use_uat_bind" | "ldap_use_apit_bind" => {
+            "ldap_use_password_bind" | "ldap_use_uat_bind" | "ldap_use_apit_bind" | "ldap_use_anonymous_bind" => {
                 let b = match s {
                     "ldap_use_password_bind" => self.ldap_bind("password", "", t_prep).await,
+                    "ldap_use_anonymous_bind" => self.ldap_bind("anonymous", "", t_prep).await,
                     "ldap_use_uat_bind" => {
                         let tok = self.person_session(t_prep).await;
                         self.ldap_bind("token", &tok, t_prep).await
@@ -554,8 +572,12 @@ impl World {
                 self.set_window(tu, vf, ex, t_set).await;
                 self.ldap_use(&b, ct).await
             }
-            "bearer_uat" | "bearer_apit" => {
-                let tok = if s == "bearer_uat" { self.person_session(t_prep).await } else { self.service_token(t_prep).await };
+            "bearer_uat" | "bearer_apit" | "bearer_anonymous" => {
+                let tok = match s {
+                    "bearer_uat" => self.person_session(t_prep).await,
+                    "bearer_anonymous" => self.anonymous_session(t_prep).await,
+                    _ => self.service_token(t_prep).await,
+                };
                 self.set_window(tu, vf, ex, t_set).await;
                 match self.identity(&tok, ct).await {
                     Ok(id) => ok(format!("identity {}", id.get_uuid())),
@@ -770,8 +792,9 @@ fn main() {
         "validity",
         "one real IdmServer per worker; per case the target account's window is opened, the artefact the surface needs is produced, then \
          valid_from/expire are written at ct+delta (delta in {absent, -1 day, -1 s, -1 ns, 0, +1 ns, +1 s, +1 day} for each edge) and the surface is \
-         tried at ct with every other precondition satisfied; 24 surfaces (interactive login incl. anonymous, re-auth, POSIX password, LDAP bind by \
-         password / anonymous / application password / login token / api token, use of each kind of LDAP bind, bearer login token and api token, \
+         tried at ct with every other precondition satisfied; 27 surfaces (interactive login incl. anonymous, re-auth, POSIX password, LDAP bind by \
+         password / anonymous / application password / login token / anonymous login token / api token, use of each kind of LDAP bind incl. anonymous, \
+         bearer login token, anonymous token and api token, \
          RADIUS token as a radius server and as the account itself, POSIX token as anonymous and as a service account, OAuth2 authorise, code exchange, \
          refresh, introspect, userinfo, service-account token exchange); non-trivial = the case has at least one window edge within 1 s of ct or lies \
          outside the window; distinct = (surface, vf delta, ex delta, sub-second offset)",
@@ -790,6 +813,10 @@ fn main() {
         // D41 (LDAP bind with a login / api token of an account outside its window)
         cases.push(Case { surface: "ldap_bind_uat".into(), vf: None, ex: Some(-DAY), sub_ns: 0 });
         cases.push(Case { surface: "ldap_bind_apit".into(), vf: Some(DAY), ex: None, sub_ns: 0 });
+        // directed: an anonymous token issued inside the window, presented 39 s later when the
+        // anonymous account has expired / is not yet valid (token lifetime not exhausted)
+        cases.push(Case { surface: "bearer_anonymous".into(), vf: None, ex: Some(-10 * NS), sub_ns: 0 });
+        cases.push(Case { surface: "bearer_anonymous".into(), vf: Some(DAY), ex: None, sub_ns: 0 });
         // exhaustive grid of edge offsets, at a whole second and at a sub-second instant
         let subs: Vec<i128> = if args.thorough() { vec![0, 1, 500_000_000, 999_999_999] } else { vec![0] };
         cases.extend(grid(&all, &subs));
